@@ -148,6 +148,15 @@ func (c11) Execute(sc *engine.Scenario) *engine.Result {
 	then := sc.Str("then")
 	ended := "budget"
 	pi = machine.Protect(func() {
+		if then == "single" || then == "iostorm" || then == "history" {
+			// A guest's first bus access other than an opcode fetch is in its second machine
+			// cycle at the earliest, after every component has been clocked once; the state
+			// before the first cycle is not an injection point a guest can reach (the thorough
+			// tier found an OAM write injected there that crashes on the PPU's not yet
+			// initialised scan position - a false alarm of this harness).
+			m.Park()
+			m.RunCycles(1)
+		}
 		switch then {
 		case "single":
 			m.Park()
